@@ -3,8 +3,10 @@ package harness
 import (
 	"bytes"
 	"fmt"
+	"net"
 	"strings"
 	"testing"
+	"time"
 
 	ml "github.com/hashicorp/memberlist"
 )
@@ -230,4 +232,95 @@ func TestC14(t *testing.T) {
 	// a key being retired while another is installed (and every other pair of keyring calls at once): the
 	// retired key must be gone afterwards - judged against both sequential orders of the keyring model
 	forCases(12, 142, "c", func(i int, r *rng, id string) { krConcP("C14", r, id) })
+	forCases(n/2, 143, "f", func(i int, r *rng, id string) { c14FbPing(r, id) })
+}
+
+// c14FbPing: the stream fallback of a probe, as initiator. The reply on that stream is inbound traffic too: the
+// acknowledgement counts only if it opens under an installed key with the node's own label as associated data
+// (whether or not the inbound header check is delegated), and carries the probe's number.
+func c14FbPing(r *rng, id string) {
+	labels := []string{"", "blue", "green"}
+	own := labels[r.intn(3)]
+	skip := r.chance(1, 2)
+	k1, k2 := mkKey(r, 16), mkKey(r, 16)
+	n, err := newCnode(ccfg{label: own, key: k1, verifyIn: true, verifyOut: true, name: "S", skipIn: skip})
+	if err != nil {
+		return
+	}
+	defer n.m.Shutdown()
+	// what the peer seals its reply with
+	aad := labels[r.intn(3)]
+	if r.chance(1, 2) {
+		aad = own
+	}
+	sameKey := r.chance(2, 3)
+	pk := k1
+	if !sameKey {
+		pk = k2
+	}
+	plain := r.chance(1, 8) // an unsealed reply
+	peer, err := newCnode(ccfg{label: aad, key: pk, verifyIn: true, verifyOut: true, name: "P"})
+	if err != nil {
+		return
+	}
+	defer peer.m.Shutdown()
+	seqOff := uint32(0)
+	if r.chance(1, 6) {
+		seqOff = 1 + uint32(r.intn(3))
+	}
+	n.tr.dial = func(addr string) (net.Conn, error) {
+		a, b := net.Pipe()
+		go func() {
+			defer b.Close()
+			// the request arrives in several writes (label header, then the sealed ping): read until the
+			// initiator has nothing more to say
+			buf := make([]byte, 4096)
+			got := 0
+			for {
+				b.SetReadDeadline(time.Now().Add(200 * time.Millisecond))
+				k, err := b.Read(buf)
+				got += k
+				if err != nil {
+					break
+				}
+			}
+			if got == 0 {
+				return
+			}
+			ack, _ := ml.VerifEncode(2, 4242+seqOff, "", nil)
+			if plain {
+				b.Write(ack)
+				return
+			}
+			ml.VerifRawSendMsgStream(peer.m, b, ack, aad)
+		}()
+		return a, nil
+	}
+	type res struct {
+		ok  bool
+		err error
+	}
+	ch := make(chan res, 1)
+	go func() {
+		defer func() {
+			if rec := recover(); rec != nil {
+				ch <- res{false, fmt.Errorf("panic")}
+			}
+		}()
+		ok, err := ml.VerifSendPingAndWaitForAck(n.m, "10.0.0.1:7946", "P", 4242, time.Now().Add(3*time.Second))
+		ch <- res{ok, err}
+	}()
+	out := "blocked"
+	select {
+	case x := <-ch:
+		out = "refused"
+		if x.ok {
+			out = "acked"
+		}
+		if x.err != nil && x.err.Error() == "panic" {
+			out = "panic"
+		}
+	case <-time.After(10 * time.Second):
+	}
+	emit("C14 fbping id=%s own=%s aad=%s skip=%d samekey=%d plain=%d seqoff=%d res=%s", id, hx([]byte(own)), hx([]byte(aad)), b2i(skip), b2i(sameKey), b2i(plain), seqOff, out)
 }
